@@ -1,4 +1,5 @@
 import ComposeVerif.Lemmas.Select
+import ComposeVerif.Lemmas.SelectCalls
 import ComposeVerif.Neg.C15
 import ComposeVerif.Lemmas.AuditCmd  -- makes sure the audit command is built with this module
 /-!
@@ -558,6 +559,83 @@ theorem select_perm_outcome {p p' : Proj} (g : Good p) (e : SameProj p p') {name
 
 /-- before the `fix:` commit the full-strength statement failed (witness in `Neg/C15.lean`, on the old loop) -/
 theorem select_perm_failed_before_fix : ¬Neg.SelectPermInvariant := Neg.select_not_perm_invariant
+
+/-! ## round 5: `ForEachService` itself — option handling, the callback sequence -/
+
+/-- no option = `IncludeDependencies` (the "backward compatibility" branch of `ForEachService` and the initial value
+of `withServicesOptions` agree) -/
+theorem policy_default : policyOf [] = .deps := rfl
+
+/-- of several `DependencyOption`s the last one decides -/
+theorem policy_last_wins (opts : List Policy) (o : Policy) : policyOf (opts ++ [o]) = o := by
+  simp [policyOf, List.foldl_append]
+
+/-- recording the calls of `fn` does not change the walk: `forEachCalls` refines `forEachService` (so every theorem
+about the set recorded by `WithSelectedServices` is a theorem about `ForEachService`) -/
+theorem forEach_refines (p : Proj) (names : List String) (opts : List Policy) :
+    (forEachCalls p names opts).forget = forEachService p names (policyOf opts) :=
+  walkC_forget _ _ _ _ _ _ _
+
+/-- an empty `names` is "all enabled services" -/
+theorem forEach_all (p : Proj) (pol : Policy) :
+    forEachService p [] pol = forEachService p (keys p.services) pol := by
+  unfold forEachService
+  simp only [walk]
+  cases hk : keys p.services <;> simp
+
+theorem forEach_never_out_of_fuel {p : Proj} (h : Partition p) (nk : NamesOK p) (names : List String) (opts : List Policy) :
+    forEachCalls p names opts ≠ .outOfFuel := by
+  intro c
+  have := forEach_refines p names opts
+  rw [c] at this
+  exact forEachService_fuel h.1 nk.services names (policyOf opts) this.symm
+
+/-- **the callback sequence of `ForEachService`**: `fn` is called exactly once with every service of the closure of
+the names (all enabled services when no name is given), and a service pulled in by `x` — a dependency of `x`, or a
+dependent of `x` under `IncludeDependents` — is called before `x`, unless it lies on a dependency cycle through `x`.
+Holds for every iteration order of the maps (the model ranges in list order; the statement does not mention it). -/
+theorem forEach_calls_exact {p : Proj} (h : Partition p) (nk : NamesOK p) (names : List String) (opts : List Policy)
+    {seen calls : List String} (hq : forEachCalls p names opts = .ok seen calls) :
+    ForEachSpec p names (policyOf opts) calls := by
+  have nd := h.1
+  have P := walkC_post nd nk.services (policyOf opts) hq
+  have hperm := (walkC_perm p.services (policyOf opts) _ _ _ [] _ _ _ _ hq (by simp) (by simp))
+  simp only [List.nil_append] at hperm
+  have cnd : calls.Nodup := hperm.1.nodup_iff.2 hperm.2
+  obtain ⟨new, e, _, _, t⟩ := walkC_topo nd nk.services (policyOf opts) _ _ _ _ _ _ _ hq
+  simp only [List.nil_append] at e
+  subst e
+  have roots : (if names.isEmpty then keys p.services else names) = rootsOf p names := rfl
+  rw [roots] at P
+  have mem : ∀ x, x ∈ calls ↔ Reach p.services (policyOf opts) (rootsOf p names) x := by
+    intro x
+    rw [hperm.1.mem_iff]
+    constructor
+    · intro hx
+      rcases P.sound x hx with h1 | ⟨r, hr, hk, hs⟩
+      · cases h1
+      · exact reach_of_star hr hk hs
+    · intro hx
+      induction hx with
+      | root hr hk => exact P.roots _ hr hk
+      | step _ e ih => exact P.closed _ ih (by simp) _ e
+  refine ⟨cnd, ⟨fun x hx => (closure_eq_reach nd _ _ x).2 ((mem x).1 hx),
+    fun x hx => (mem x).2 ((closure_eq_reach nd _ _ x).1 hx)⟩, ?_⟩
+  intro x hx y hy
+  have hxy := (mem_succ_iff nd _ x y).1 hy
+  rcases t x hx y hxy with q | q | q
+  · cases q
+  · exact .inl (before_of_Before cnd q)
+  · exact .inr ((closure_eq_reach nd _ _ x).2 (reach_of_star (by simp) (edge_target_mem hxy) q))
+
+/-- in particular on an acyclic dependency graph every dependency is started before the service that needs it -/
+theorem forEach_dependencies_first {p : Proj} (h : Partition p) (nk : NamesOK p) (names : List String) (opts : List Policy)
+    {seen calls : List String} (hq : forEachCalls p names opts = .ok seen calls)
+    (acyclic : ∀ x y, Edge p.services (policyOf opts) x y → ¬ Reach p.services (policyOf opts) [y] x)
+    {x y : String} (hx : x ∈ calls) (hxy : Edge p.services (policyOf opts) x y) : before calls y x = true := by
+  rcases (forEach_calls_exact h nk names opts hq).2.2 x hx y ((mem_succ_iff h.1 _ x y).2 hxy) with q | q
+  · exact q
+  · exact absurd ((closure_eq_reach h.1 _ _ x).1 q) (acyclic x y hxy)
 
 /-! ## non-vacuity -/
 
